@@ -25,11 +25,16 @@ MANIFEST = dict(
          "shim journalling every write/pwrite/ftruncate/rename/unlink/create; the observed journals must have the model's "
          "shape (kind, offset, length); the directory / file image of EVERY prefix of the OBSERVED journal is reopened by the "
          "real recovery code and by the model's init, then used (more appends, another reopen), and judged by an independent "
-         "oracle computed from the meaning of the mutations.",
+         "oracle computed from the meaning of the mutations. (4) compaction_crash_points_harmless — a node killed during a "
+         "compaction (new snapshot file complete, oldest one removed, then catalogue save and log cut in EITHER order; the "
+         "log is cut one snapshot behind) restarts, for every history, all compaction points and all four combinations, to a "
+         "state equivalent to the one that ran the history (component premises as in C01); tied to the code by the journal "
+         "of REAL compactions (restart suite under the shim): the catalogue is never rewritten while the new file is being "
+         "written, the pointer written points at the previous snapshot, only older snapshot files are removed.",
     note="proof, partial. Not covered by a theorem: crash images of delete-from (strip_log_to) — they are replayed "
          "exhaustively on the real code and on the model for the generated histories (the three defects found this way are "
          "repaired) and enumerated for one concrete history in RaftLog/LogCrashExamples.v; rollover across log files and the "
-         "catalogue-vs-new-log-file ordering (two actors), snapshot data files. The model cannot exhibit: torn single writes "
+         "catalogue-vs-new-log-file ordering (two actors); snapshot data files enter theorem (4) through the snapshot-file round trip of C01 (a partially written new file is never named by the catalogue). The model cannot exhibit: torn single writes "
          "(each write call is atomic in the model and in the materialised images), fsync / power loss and directory-entry "
          "durability (the OS survives), and the blocking-pool scheduling that decides in which order writes of different "
          "tokio handles/actors reach the OS (the observed order is recorded and compared, not controlled; the data and index "
@@ -436,6 +441,69 @@ def log_part(chk, rng, quick, base, stats):
     return len(cases), mism
 
 
+# ---------------------------------------------------------------- compaction: what SM/Replay.v crash_restart assumes
+def compaction_stage_order(chk, rng, base):
+    """a REAL single-node raft (restart suite) under the shim, compactions every few entries.  In the observed journal of
+    every compaction (creation of snapshot_N .. next creation) the three facts the model's [crash_restart] rests on:
+      (a) the index record (catalogue) is not rewritten while snapshot_N is still being written: the catalogue never names an
+          incomplete file;
+      (b) the log cut LAGS: the snapshot pointer written to a log file during this compaction points at snapshot N-1 or older;
+      (c) only snapshot files older than N-1 are removed (the file the catalogue names last is never removed)."""
+    import re
+
+    def cs(key, val, hid):
+        return {"ConfigSet": {"config_type": None, "desc": None, "history_id": hid, "history_table_id": None, "key": key,
+                              "op_time": 1700000000000 + hid, "op_user": None, "value": val}}
+    n = rng.randrange(45, 70)
+    reqs = [cs("k%d\u0002g" % (i % 7), "v%d" % i, i + 1) for i in range(n)]
+    case = {"threshold": rng.choice([6, 10, 13]), "phases": [{"reqs": reqs}, {"reqs": reqs[:2]}], "plants": [], "pace": True}
+    d = os.path.join(base, "compaction")
+    tmp = os.path.join(d, "tmp")
+    os.makedirs(tmp)
+    cin, cout, jr = os.path.join(d, "case.jsonl"), os.path.join(d, "out.jsonl"), os.path.join(d, "journal")
+    with open(cin, "w") as f:
+        f.write(json.dumps(case) + "\n")
+    rc, out = lib.sh([lib.BIN, "restart", cin, cout], timeout=600, cwd=d,
+                     env={"LD_PRELOAD": SHIM_SO, "CRASHFS_ROOT": tmp, "CRASHFS_JOURNAL": jr, "RNVERIF_TMP": tmp})
+    if rc != 0:
+        chk.violation("restart suite under crashfs failed rc=%s" % rc, {"broken": "harness", "log": out[-2000:]}, False)
+        return 0
+    j = [m for m in parse_journal(jr, os.path.realpath(tmp)) if "/data/" in m[1]]
+    name = lambda m: m[1].split("/data/")[-1]
+    sid = lambda s: int(s.split("_")[1])
+    # the suite removes the data directory at the end: everything from the removal of db_lock / index on is clean-up
+    stop = next((i for i, m in enumerate(j) if m[0] == "U" and name(m) in ("db_lock", "index")), len(j))
+    j = j[:stop]
+    creates = [i for i, m in enumerate(j) if m[0] == "C" and name(m).startswith("snapshot_")]
+    n_ok = 0
+    for ci, c in enumerate(creates):
+        end = creates[ci + 1] if ci + 1 < len(creates) else len(j)
+        snap = name(j[c])
+        N = sid(snap)
+        w_last = max([i for i in range(c, end) if j[i][0] == "W" and name(j[i]) == snap] or [c])
+        bad = []
+        early = [i for i in range(c, w_last) if j[i][0] == "W" and name(j[i]) == "index" and j[i][2] == 8]
+        if early:
+            bad.append("the index record was rewritten (journal #%d) while %s was still being written (last write #%d)" % (early[0], snap, w_last))
+        for i in range(c, end):
+            m = j[i]
+            if m[0] == "W" and name(m).startswith("log_") and b"SnapshotPointer" in m[3]:
+                mm = re.search(rb'"id":"(\d+)"', m[3])
+                if mm and int(mm.group(1)) >= N:
+                    bad.append("the snapshot pointer written during the compaction that creates %s points at snapshot %d: the log is cut "
+                               "at the NEW snapshot while the catalogue may still name the previous one" % (snap, int(mm.group(1))))
+            if m[0] == "U" and name(m).startswith("snapshot_") and sid(name(m)) >= N - 1:
+                bad.append("%s removed during the compaction that creates %s" % (name(m), snap))
+        if bad:
+            chk.violation("the file mutations of a compaction are not what the model (SM/Replay.v crash_restart) assumes: %s" % "; ".join(bad),
+                          {"suite": "restart under crashfs", "case": case, "snapshot": snap,
+                           "journal": [[m[0], name(m)] + ([m[2]] if len(m) > 2 and not isinstance(m[2], bytes) else []) for m in j[c:end][:60]],
+                           "correspondence": "SM.Replay.crash_restart"}, False)
+        else:
+            n_ok += 1
+    return n_ok
+
+
 # ---------------------------------------------------------------- the check
 def run(chk, replay=None):
     tier = chk.tier
@@ -455,6 +523,8 @@ def run(chk, replay=None):
     os.makedirs(base)
     try:
         _run(chk, rng, quick, proofs_ok, base)
+        chk.cov["compactions_in_model_stage_order"] = sum(compaction_stage_order(chk, rng, os.path.join(base, "cmp%d" % i))
+                                                          for i in range(1 if quick else 6))
     finally:
         shutil.rmtree(base, ignore_errors=True)
 
